@@ -50,8 +50,9 @@ func verifCheckSchedule(k *verifCall, want []byte, n int) {
 // exactly n transmissions at 0, T, 3T, ... and ErrNoResponse at T*(2^n-1).
 func VerifC12Silence(tries, nmsgs int) {
 	k := &verifCall{conn: newVerifConn(), tries: tries, ctxAt: -1, closeAt: -1}
-	k.T = int64(verifU32("T"))
+	k.T = int64(verifU64("T")) // up to 2^38 ns (4.6 minutes) per first wait
 	verifAssume(k.T >= 1)
+	verifAssume(k.T < 1<<38)
 	c, err := NewWithConn(k.conn, verifHW, WithTimeout(time.Duration(k.T)), WithRetry(tries), WithServerAddr(verifOtherDest()))
 	verifAssert(err == nil, "client-created")
 	k.c = c
